@@ -333,6 +333,68 @@ func checkC19(p *core.Program, r *core.Report) {
 					setTrue = y
 				}
 			})
+			// the channels handed to the (single, long-lived) listener stay the provider's channels while it runs
+			for _, arg := range g.Call.Args {
+				cf, base := core.LoadedField(arg)
+				if cf == nil || core.NamedOf(base.Type()) != prov {
+					continue
+				}
+				if _, isChan := cf.Type().Underlying().(*types.Chan); !isChan {
+					continue
+				}
+				_ = base
+				isNilEdge := func(b *ssa.BasicBlock, idx int) bool {
+					i := core.BlockIf(b)
+					if i == nil {
+						return false
+					}
+					v, truth := core.Truth(i.Cond, idx)
+					bo, ok := v.(*ssa.BinOp)
+					if !ok || (bo.Op != token.EQL && bo.Op != token.NEQ) {
+						return false
+					}
+					var other ssa.Value
+					if core.IsNilConst(bo.Y) {
+						other = bo.X
+					} else if core.IsNilConst(bo.X) {
+						other = bo.Y
+					} else {
+						return false
+					}
+					f, _ := core.LoadedField(other)
+					return f == cf && truth == (bo.Op == token.EQL)
+				}
+				for _, fn2 := range fns {
+					if core.NamedOf(recvType(fn2)) != prov {
+						continue
+					}
+					fn2 := fn2
+					core.EachInstr(fn2, func(y ssa.Instruction) {
+						fl, _, v := core.StoredField(y)
+						if fl != cf {
+							return
+						}
+						k := "listener channel " + cf.Name() + " written in " + p.FnName(fn2)
+						if core.IsNilConst(v) {
+							stopsListener := func(z ssa.Instruction) bool {
+								f2, _, v2 := core.StoredField(z)
+								return f2 == fListener && isBoolConst(v2, false)
+							}
+							if core.PathSearch(fn2, nil, func(z ssa.Instruction) bool { return z == y }, stopsListener, nil) != nil {
+								r.Fail(R4, k+" (reset)", p.Pos(y.Pos()), "the channel is dropped while the listener may still be running (listenerRunning is not cleared first): the next start makes a new channel the running listener does not read")
+							} else {
+								r.OK(R4, k+" (reset)", p.Pos(y.Pos()), "reset only after the listener was marked stopped")
+							}
+							return
+						}
+						if core.Guarded(y, isNilEdge) {
+							r.OK(R4, k, p.Pos(y.Pos()), "a channel is made only when there is none: a running listener keeps reading the channel the browser writes to")
+						} else {
+							r.Fail(R4, k, p.Pos(y.Pos()), "the channel is replaced although the listener goroutine, started once, still reads the previous one: after a reconnect the new service browser delivers into a channel nobody reads and no service is reported again")
+						}
+					})
+				}
+			}
 			if core.Guarded(in, notRunning) && setTrue != nil && core.Dominates(setTrue, in) && li.Must[in][muxID] {
 				r.OK(R4, key, p.Pos(in.Pos()), "only when no listener runs; flag set first, under mux")
 			} else {
